@@ -1,6 +1,7 @@
 //! C18 harness: `undeclared_variables` never omits a variable the template reads.
 //!
-//! For every generated single-file template the binary
+//! For every generated single-file template (blocks, recursive loops and loop controls included;
+//! include/import/extends are not generated) the binary
 //!   * parses it with the real parser and dumps the real AST as a prefix token stream
 //!     (input of the Lean driver `drive_c18`, which runs the model `findUndeclared` on it),
 //!   * asks the real analysis (`Template::undeclared_variables(false / true)`),
@@ -820,7 +821,8 @@ impl Gen {
                 if !rec.is_empty() && self.rng.chance(2, 3) {
                     // re-enter the loop somewhere: plain, captured, through an alias, from a with
                     let arg = self.iterable(2);
-                    let call = match self.rng.below(5) {
+                    let call = match self.rng.below(6) {
+                        5 => format!("{{% macro mm() %}}{{{{ loop({}) ~ 1 }}}}{{% endmacro %}}{{{{ mm() }}}}", arg),
                         0 => format!("{{{{ loop({}) }}}}", arg),
                         1 => format!("{{{{ loop({}) ~ 1 }}}}", arg),
                         2 => format!("{{% set o = loop %}}{{% for w in {} %}}{{{{ o({}) }}}}{{% endfor %}}", self.iterable(2), arg),
